@@ -1163,3 +1163,17 @@ Proof.
     apply (trace_start_shape parse true ops) in Hs. simpl in Hs. congruence.
   - destruct Ha as [_ []].
 Qed.
+
+(* a session whose grants are all outside their window (expired before, or not yet effective at,
+   the request) starts nothing: every started action has a grant of the session whose window
+   contains the clock value *)
+Theorem start_needs_grant_in_window : forall parse ops pre sid a t used post u k ags,
+    trace parse ops = pre ++ EvStart sid a t used :: post ->
+    login_of pre sid = Some (u, k, ViaGrant ags) ->
+    exists g, In g ags /\ (g_start g <= t < g_exp g)%Z.
+Proof.
+  intros parse ops pre sid a t used post u k ags E Hl.
+  destruct (delegate_starts_only_exec _ _ _ _ _ _ _ _ _ _ _ E Hl) as (cmd & shell & ->).
+  destruct (exec_needs_live_grant _ _ _ _ _ _ _ _ _ _ _ _ E Hl) as (g & _ & Hin & _ & (Hw & _) & _).
+  eauto.
+Qed.
